@@ -4,7 +4,7 @@ Stages of one run:  proof (Coq make + audit)  ->  build (harness from /repo's wo
 OCaml model runner from the extracted Gallina)  ->  correspondence (same cases through both)
 ->  verdict + evidence.
 """
-import fcntl, hashlib, json, os, random, re, select, subprocess, sys, threading, time
+import fcntl, hashlib, json, os, random, re, select, subprocess, sys, threading, time, types
 from pathlib import Path
 
 ROOT = Path(__file__).resolve().parent.parent
@@ -290,6 +290,19 @@ def build_model(pid):
 
 
 # ----------------------------------------------------------------------------- running
+MODEL_TIMEOUT = int(os.environ.get("NV_MODEL_TIMEOUT", "1800"))
+MODEL_MEM_GB = int(os.environ.get("NV_MODEL_MEM_GB", "6"))
+
+
+def _limit_model():
+    import resource, ctypes, signal
+    resource.setrlimit(resource.RLIMIT_AS, (MODEL_MEM_GB << 30, MODEL_MEM_GB << 30))
+    try:
+        ctypes.CDLL("libc.so.6").prctl(1, signal.SIGKILL)  # PR_SET_PDEATHSIG
+    except Exception:
+        pass
+
+
 def run_model(runner, lines, shards=None, header=None):
     """Feed text lines to the OCaml runner (sharded), return result lines in order.
     `header`: optional list of lines sent first to every shard (their answers are dropped)."""
@@ -301,8 +314,20 @@ def run_model(runner, lines, shards=None, header=None):
     header = list(header or [])
 
     def work(k):
-        p = subprocess.run([runner], input="\n".join(header + chunks[k]) + "\n", stdout=subprocess.PIPE,
-                           stderr=subprocess.PIPE, text=True)
+        # the model is total and small: a shard that needs more than MODEL_MEM_GB of memory or MODEL_TIMEOUT
+        # seconds has been handed an input it cannot digest (e.g. a state read back from a broken
+        # implementation); it is stopped and its unanswered lines read "runner-died", which every driver
+        # treats as a disagreement to be judged by its oracle.  The runner also dies with the driver.
+        try:
+            p = subprocess.run([runner], input="\n".join(header + chunks[k]) + "\n", stdout=subprocess.PIPE,
+                               stderr=subprocess.PIPE, text=True, timeout=MODEL_TIMEOUT, preexec_fn=_limit_model)
+            out, rc, err = p.stdout, p.returncode, p.stderr
+        except subprocess.TimeoutExpired as e:
+            out = e.stdout or ""
+            out = out.decode("utf8", "replace") if isinstance(out, bytes) else out
+            out = out[:out.rfind("\n") + 1]
+            rc, err = -9, f"timeout after {MODEL_TIMEOUT}s"
+        p = types.SimpleNamespace(stdout=out, returncode=rc, stderr=err)
         o = p.stdout.split("\n")
         if o and o[-1] == "":
             o.pop()
